@@ -308,6 +308,22 @@ def builtin_call(name, args, checked):
         return max(args)
     if ends("core::cmp::Ord::min") or ends("cmp::min"):
         return min(args)
+    # integer conversions: `u16::try_from(x)` / `x.try_into()` succeed exactly when the value fits the target; `T::from(x)` is lossless
+    m = re.search(r"TryFrom<(\w+)> for (\w+)>::try_from$", name) or re.search(r"TryInto<(\w+)>>::try_into$", name)
+    if m and len(args) == 1 and isinstance(args[0], int) and not isinstance(args[0], bool):
+        tgt = m.group(2) if m.lastindex == 2 else m.group(1)
+        if tgt in MASKS or tgt in ("usize", "isize"):
+            if in_range(args[0], tgt):
+                return ("variant", "Ok", "core::result::Result", (args[0],))
+            return ("variant", "Err", "core::result::Result", (("variant", "TryFromIntError", "core::num::error::TryFromIntError", ()),))
+    if re.search(r"convert::(num::)?<impl core::convert::From<\w+> for \w+>::from$", name) and len(args) == 1 and isinstance(args[0], int):
+        return args[0]
+    if ends("Result::<T, E>::ok") and len(args) == 1 and isinstance(args[0], tuple) and args[0][:1] == ("variant",):
+        return ("variant", "Some", "core::option::Option", args[0][3]) if args[0][1] == "Ok" else ("variant", "None", "core::option::Option", ())
+    if ends("<impl bool>::then_some") and len(args) == 2:
+        return ("variant", "Some", "core::option::Option", (args[1],)) if args[0] else ("variant", "None", "core::option::Option", ())
+    if ends("Option::<T>::filter") and len(args) == 2 and isinstance(args[0], tuple) and args[0][:2] == ("variant", "None"):
+        return args[0]
     raise Unknown("call " + name)
 
 
